@@ -1,9 +1,8 @@
-\* exhaustive, the copy stories (CopyPlan)
-CONSTANTS MaxObj = 2  MaxLevel = 5  HandFiles <- NoHandFiles  Styles <- StylesAll  CopyKinds <- KindsTwo  Ops <- OpsCopy  Generic <- GenQ
-INIT Init
-NEXT Next
-CONSTRAINT Bound
-ACTION_CONSTRAINT CopyPlan
+\* trace validation: four objects, every action, all hand files, no depth bound
+CONSTANTS MaxObj = 4  MaxLevel = 9999  HandFiles <- McHandFiles  Styles <- StylesAll  CopyKinds <- KindsAll  Ops <- OpsAll  Generic <- GenQR
+SPECIFICATION TSpec
+CONSTRAINT Progress
+POSTCONDITION Report
 INVARIANT TypeOK
 INVARIANT WrittenValuesAreCurrent
 INVARIANT ShortOmitsExactlyDefaults
